@@ -288,6 +288,10 @@ func c7exportWords(r *runtime.Runtime, cs []c7conj) (words string, text string) 
 	if len(ws) == 0 {
 		return "-", text
 	}
+	if len(ws) == 1 && ws[0] == "T:uint" {
+		// a lone `uint` is MatchBuiltinRange's answer (the simplifier never prints it alone)
+		return "R:uint", text
+	}
 	return strings.Join(ws, ","), text
 }
 
